@@ -254,3 +254,29 @@ Theorem C16_added_special_scheme : forall idna_raw c t x u dp,
   u_port u <> Some dp /\ (dp <> [] -> Port u <> dp).
 Proof. exact special_all_inputs. Qed.
 Print Assumptions C16_added_special_scheme.
+
+(* default-scheme through ParseRef (Proofs/DefaultSchemeRef.v): the default scheme is for the BASE text when it fails only for
+   lack of a scheme; a base that parses is used as it is, and a failure of the resolution itself (a relative reference against a
+   base with an opaque path is reported with the same error type) is returned, not repaired by re-reading the base *)
+From Verif Require Import Proofs.DefaultSchemeRef.
+
+Theorem C16_default_scheme_parseref : forall idna_raw p ds base ref, p_defaultScheme p = ds -> let c := p_cfg p in
+  (forall b, Parse idna_raw c base = PUrl b ->
+     ProfileParseRef idna_raw p base ref = canon_of idna_raw p (UrlParse idna_raw c b ref)) /\
+  (forall e, Parse idna_raw c base = PErr e -> e_type e = MissingSchemeNonRelativeURL -> ds <> [] ->
+     ProfileParseRef idna_raw p base ref =
+     match Parse idna_raw c (ds ++ [58;47;47] ++ base) with
+     | PUrl b => canon_of idna_raw p (UrlParse idna_raw c b ref) | PErr e' => CErr e' | _ => CPanic end) /\
+  (forall e, Parse idna_raw c base = PErr e -> (e_type e <> MissingSchemeNonRelativeURL \/ ds = []) ->
+     ProfileParseRef idna_raw p base ref = CErr e) /\
+  (forall r, Parse idna_raw c base = r -> (forall b, r <> PUrl b) -> (forall e, r <> PErr e) ->
+     ProfileParseRef idna_raw p base ref = CPanic).
+Proof. exact default_scheme_parseref. Qed.
+Print Assumptions C16_default_scheme_parseref.
+
+Theorem C16_default_scheme_does_not_repair_resolution : forall idna_raw p base ref b e,
+  Parse idna_raw (p_cfg p) base = PUrl b -> UrlParse idna_raw (p_cfg p) b ref = PErr e ->
+  ProfileParseRef idna_raw p base ref = CErr e.
+Proof. exact default_scheme_does_not_repair_resolution. Qed.
+Print Assumptions C16_default_scheme_does_not_repair_resolution.
+
